@@ -188,6 +188,9 @@ def main(argv=None):
     viol_lines = []
     known_lines = []
     os.makedirs(os.path.join(VERIF, 'replay', prop), exist_ok=True)
+    for old in os.listdir(os.path.join(VERIF, 'replay', prop)):
+        if old.startswith('violation_'):
+            os.unlink(os.path.join(VERIF, 'replay', prop, old))
     nrep = 0
     known_names = set()
     defect_cache = {}
